@@ -161,8 +161,119 @@ pub fn piece_hash_spec(b: &Board) -> u64 {
     }
     h
 }
-/// cached derived data agrees with the from-scratch specification
-pub fn caches_ok(b: &Board) -> bool {
+/// cached derived data agrees with the from-scratch specification at square q
+/// (for a nondeterministic q this is set equality of both cached sets)
+pub fn caches_ok_at(b: &Board, q: u8) -> bool {
     let p = view(b);
-    b.checkers.to_u64() == r::checkers_spec(&p) && b.pinned.to_u64() == r::pinned_spec(&p)
+    g::has(b.checkers.to_u64(), q) == r::is_checker(&p, q) && g::has(b.pinned.to_u64(), q) == r::is_pinned(&p, q)
+}
+
+impl kani::Arbitrary for Board {
+    fn any() -> Self {
+        any_board()
+    }
+}
+
+/// xor of the keys of the (at most two) squares of `diff` for (piece, color)
+pub fn keys_of(diff: BitBoard, piece: Piece, color: Color) -> u64 {
+    // plain u64 arithmetic: BitBoard::pop may be stubbed (one-shot abstraction) in the calling harness
+    let mut d = diff.to_u64();
+    let mut h = 0u64;
+    if d != 0 {
+        let a = d.trailing_zeros() as u8;
+        d &= d - 1;
+        h ^= chess_lookup::zobrist(Pos::from_u8(a).unwrap(), piece, color);
+    }
+    if d != 0 {
+        let b = d.trailing_zeros() as u8;
+        h ^= chess_lookup::zobrist(Pos::from_u8(b).unwrap(), piece, color);
+    }
+    h
+}
+/// all fields except raw and zobrist are equal
+pub fn same_but_placement(a: &Board, b: &Board) -> bool {
+    a.turn == b.turn
+        && a.castle_rights == b.castle_rights
+        && a.enpassant_target == b.enpassant_target
+        && a.half_move_clock == b.half_move_clock
+        && a.full_move_clock == b.full_move_clock
+        && a.pinned == b.pinned
+        && a.checkers == b.checkers
+}
+/// postcondition of Board::xor(color, piece, diff) for |diff| <= 2 (every call site in make-move)
+pub fn xor_post(old: &Board, new: &Board, color: Color, piece: Piece, diff: BitBoard) -> bool {
+    let (po, pn) = (view(old), view(new));
+    let d = diff.to_u64();
+    let c = col(color) as usize;
+    let k = pc(piece) as usize;
+    let mut ok = pn.col[c] == po.col[c] ^ d && pn.col[1 - c] == po.col[1 - c];
+    let mut i = 0;
+    while i < 6 {
+        ok = ok && pn.pcs[i] == if i == k { po.pcs[i] ^ d } else { po.pcs[i] };
+        i += 1;
+    }
+    ok && new.zobrist == old.zobrist ^ keys_of(diff, piece, color) && same_but_placement(old, new)
+}
+
+/// element-wise equality of two views (array `==` on [u64; N] compiles to a byte-wise memcmp loop)
+pub fn same_view(a: &r::P, b: &r::P) -> bool {
+    a.col[0] == b.col[0]
+        && a.col[1] == b.col[1]
+        && a.pcs[0] == b.pcs[0]
+        && a.pcs[1] == b.pcs[1]
+        && a.pcs[2] == b.pcs[2]
+        && a.pcs[3] == b.pcs[3]
+        && a.pcs[4] == b.pcs[4]
+        && a.pcs[5] == b.pcs[5]
+        && a.turn == b.turn
+        && a.rights == b.rights
+        && a.ep == b.ep
+        && a.half == b.half
+        && a.full == b.full
+}
+/// Contract abstraction of Board::xor for use with #[kani::stub(Board::xor, xor_contract_stub)]:
+/// assert the precondition, havoc the board, assume the postcondition — exactly what stub_verified does.
+/// The contract itself is discharged on the real body by obligation C04.xor. (Kani's `modifies`
+/// instrumentation of an attribute contract on this method ran out of memory, so the abstraction is
+/// instantiated by hand.)
+pub fn xor_contract_stub(b: &mut Board, color: Color, piece: Piece, diff: BitBoard) {
+    assert!(diff.count() <= 2, "VERIF Board::xor called with more than two squares");
+    let old = *b;
+    *b = any_board();
+    kani::assume(xor_post(&old, b, color, piece, diff));
+}
+
+// ---------------------------------------------------------------- foreach-loop proofs: one-shot iterator abstraction
+/// ghost record of what the loops ranged over: the set handed to the first `pop` of each loop and the
+/// member chosen
+pub static mut POPS: [u8; 4] = [64; 4];
+pub static mut POP_SETS: [u64; 4] = [0; 4];
+pub static mut NPOPS: usize = 0;
+/// One-shot abstraction of BitBoard::pop (the only thing BitBoardIter::next calls): on a non-empty set
+/// return an ARBITRARY member and leave the set empty, so `for x in set { body }` executes `body` exactly
+/// once for an arbitrary member (or not at all). The real iterator is verified separately (C18.iter.next).
+pub fn pop_one_shot(bb: &mut BitBoard) -> Option<Pos> {
+    if bb.none() {
+        return None;
+    }
+    let p: Pos = kani::any();
+    kani::assume(bb.contains(p));
+    unsafe {
+        if NPOPS < 4 {
+            POPS[NPOPS] = p as u8;
+            POP_SETS[NPOPS] = bb.to_u64();
+        }
+        NPOPS += 1;
+    }
+    *bb = BitBoard::empty();
+    Some(p)
+}
+pub fn npops() -> usize {
+    unsafe { NPOPS }
+}
+pub fn popped(k: usize) -> u8 {
+    unsafe { POPS[k] }
+}
+pub fn pop_set(k: usize) -> u64 {
+    unsafe { POP_SETS[k] }
 }
